@@ -24,7 +24,7 @@
 
 off64_t gd_nframes64(DIRFILE* D)
 {
-  off64_t nf;
+  off64_t nf, wpos = -1;
 
   dtrace("%p", D);
 
@@ -58,6 +58,15 @@ off64_t gd_nframes64(DIRFILE* D)
    * data
    */
   if (D->reference_field->e->u.raw.file[0].mode & GD_FILE_WRITE) {
+    /* closing the field sends its I/O pointer back to the beginning: remember
+     * where it is */
+    if (D->reference_field->e->u.raw.file[0].idata >= 0 ||
+        D->reference_field->e->u.raw.file[1].idata >= 0)
+    {
+      wpos = _GD_GetIOPos(D, D->reference_field, -1);
+      if (D->error)
+        GD_RETURN_ERROR(D);
+    }
     _GD_FiniRawIO(D, D->reference_field, D->reference_field->fragment_index,
         GD_FINIRAW_KEEP);
     if (D->error)
@@ -73,6 +82,11 @@ off64_t gd_nframes64(DIRFILE* D)
     _GD_SetEncIOError(D, GD_E_IO_READ, D->reference_field->e->u.raw.file);
     GD_RETURN_ERROR(D);
   }
+
+  /* this is a query: put the I/O pointer back (in read mode: nothing is created
+   * or padded; a subsequent write at GD_HERE starts from the read pointer) */
+  if (wpos >= 0 && _GD_Seek(D, D->reference_field, wpos, GD_FILE_READ))
+    GD_RETURN_ERROR(D);
 
   nf /= D->reference_field->EN(raw,spf);
   nf += D->fragment[D->reference_field->fragment_index].frame_offset;
